@@ -13083,6 +13083,7 @@ _SPECIAL_PROPERTIES = [
     "RenameResponse.jsonrpc",
     "RenameResponse.result",
     "ResponseErrorMessage.error",
+    "ResponseErrorMessage.id",
     "ResponseErrorMessage.jsonrpc",
     "SelectionRangeRegistrationOptions.document_selector",
     "SelectionRangeRequest.jsonrpc",
